@@ -734,6 +734,23 @@ impl<'r> G<'r> {
             let st = if sig.leaf { self.leaf_stmt(&mut scope) } else { self.stmt(&mut scope) };
             f.cards.push(st);
         }
+        if !sig.leaf && self.rng.chance(1, 5) {
+            // a table used as a key, changed while it is a key (its content hash moves: no lookup
+            // finds the entry), some allocation in between, the key restored and looked up again:
+            // whatever the entry holds has to survive the collections in between
+            let (mk, mt) = (format!("mk{idx}"), format!("mt{idx}"));
+            f.cards.push(Card::set_var(mk.clone(), c(CardBody::CreateTable)));
+            f.cards.push(Card::set_var(mt.clone(), c(CardBody::CreateTable)));
+            let held = if self.rng.chance(1, 2) { self.str_lit() } else { Card::call_native("mk_table", vec![Card::scalar_int(self.rng.range(0, 9))]) };
+            f.cards.push(Card::set_property(held, Card::read_var(mt.clone()), Card::read_var(mk.clone())));
+            f.cards.push(c(CardBody::AppendTable(bin(Card::scalar_int(self.rng.range(0, 9)), Card::read_var(mk.clone())))));
+            let filler = self.stmt(&mut scope);
+            f.cards.push(filler);
+            let junk = self.str_lit();
+            f.cards.push(Card::set_global_var(self.global_for(Ty::Str), junk));
+            f.cards.push(Card::set_global_var(self.global_for(Ty::Int), c(CardBody::PopTable(un(Card::read_var(mk.clone()))))));
+            f.cards.push(Card::set_global_var(self.global_for(Ty::Any), Card::get_property(Card::read_var(mt), Card::read_var(mk))));
+        }
         if idx != 0 {
             let r = if sig.leaf { self.any_leaf_expr(&scope, 2) } else { self.any_expr(&scope, 2) };
             f.cards.push(Card::return_card(r));
